@@ -293,6 +293,45 @@ func (c *regexpSimplifyChecker) walkCharClassArgs(args []syntax.Expr) {
 	}
 }
 
+// canMatchEmpty reports whether e can match the empty string.
+// Go's regexp treats iterations that match nothing specially,
+// so `xx*` and `x+` are not interchangeable for such x.
+func (c *regexpSimplifyChecker) canMatchEmpty(e syntax.Expr) bool {
+	switch e.Op {
+	case syntax.OpStar, syntax.OpQuestion:
+		return true
+	case syntax.OpRepeat:
+		return strings.HasPrefix(e.Args[1].Value, "{0") || c.canMatchEmpty(e.Args[0])
+	case syntax.OpNonGreedy, syntax.OpPlus, syntax.OpGroup, syntax.OpCapture,
+		syntax.OpNamedCapture, syntax.OpGroupWithFlags:
+		return c.canMatchEmpty(e.Args[0])
+	case syntax.OpAlt:
+		for _, a := range e.Args {
+			if c.canMatchEmpty(a) {
+				return true
+			}
+		}
+		return false
+	case syntax.OpConcat, syntax.OpLiteral:
+		for _, a := range e.Args {
+			if !c.canMatchEmpty(a) {
+				return false
+			}
+		}
+		return true
+	case syntax.OpFlagOnlyGroup, syntax.OpCaret, syntax.OpDollar:
+		return true
+	case syntax.OpEscapeMeta, syntax.OpEscapeChar:
+		switch e.Value {
+		case `\b`, `\B`, `\A`, `\z`:
+			return true
+		}
+		return false
+	default:
+		return false
+	}
+}
+
 // hasQuantifiedFlagGroup reports whether e contains a flag-only group
 // like `(?i)` that is followed by a quantifier.
 func (c *regexpSimplifyChecker) hasQuantifiedFlagGroup(e syntax.Expr) bool {
@@ -556,7 +595,7 @@ func (c *regexpSimplifyChecker) walkConcat(concat syntax.Expr) {
 
 		// Try merging `xy*` into `x+` where x=y.
 		if concat.Args[i].Op == syntax.OpStar {
-			if c.canMerge(x, concat.Args[i].Args[0]) {
+			if c.canMerge(x, concat.Args[i].Args[0]) && !c.canMatchEmpty(x) {
 				c.out.WriteString("+")
 				c.score++
 				i++
